@@ -11,6 +11,7 @@ import Poulpy.Lemmas.CnvModel
 import Poulpy.Lemmas.CnvAssign
 import Poulpy.Lemmas.ValBridge
 import Poulpy.Lemmas.AccAdd
+import Poulpy.Lemmas.EpTotal
 import Poulpy.Props.C02
 import Poulpy.Props.C07
 
@@ -34,7 +35,7 @@ What is not proved is listed at the end.
 -/
 
 namespace C05
-open Hal Core
+open Hal Core KsDec
 
 /-- the split of `cnv_offset` is exact: skipping `hi` limbs of the convolution (which scales by
 `2^{(hi+1)·b}` because limb `k` of a product has weight `2^{-(k+2)·b}`) and shifting by `lo` bits
@@ -958,6 +959,288 @@ example (σ : ℕ → Ks.R 1) :
                     - 1 * σ i * ((2 : Ks.R 1) ^ exTsk.base2k) ^ (exTsk.size - (r + 1) * exTsk.dsize))
     (by decide) (by decide) rfl (by decide) (by decide) (Ks.entry_length exTsk.toPMat 1 rfl (by decide +kernel)) (by decide)
     (by intro i _ r _; exact (add_sub_cancel _ _).symm)
+/-! ## Unconditional composed statements: every kernel hypothesis discharged by C08's total value theorems -/
+
+/-- **`mul_const_decrypts`** — `glwe_mul_const`, END TO END, ANY radix pair `1..62`, every `cnv_offset` (bit offset `lo` of either sign), both
+accumulator widths; the only analytic hypothesis is the accumulator head-room (`mul_const_headroom` derives it from digit bounds).  The call
+returns a well-formed ciphertext with digits `≤ 2^rb − 1` and
+`2^(b·F+(−lo)⁺)·phase(res) + 2^(rb·rs)·2^(lo⁺)·β^F·top = 2^(rb·rs)·2^(lo⁺)·β·val(phase a)·val(cst) + En + 2^(…)·Q`,
+`‖En‖_∞ ≤ (1 + Σ‖s_i‖₁)·normTolOff` (one unit of the result's last limb per column, `0` when `b·F − lo ≤ rb·rs`); with
+`cnvOffsetSplit_total` the scale is `2^cnv_offset`. -/
+theorem mul_const_decrypts {N : Nat} (hN : 0 < N) (big128 : Bool) (rb rs off b sa : Nat) (a0 : Col) (as : List Col) (cst : List Int) (H : Int)
+    (h0 : a0.length = sa) (hall : ∀ x ∈ as, x.length = sa) (hx0 : ∀ l ∈ a0, l.length = N) (hxs : ∀ x ∈ as, ∀ l ∈ x, l.length = N)
+    (hsa : 1 ≤ sa) (hsb : 1 ≤ cst.length) (hhi : (cnvOffsetSplit b off).1 ≤ sa + cst.length - 1)
+    (hrb1 : 1 ≤ rb) (hrb : rb ≤ 62) (hb1 : 1 ≤ b) (hb : b ≤ 62) (hH0 : 0 ≤ H) (hH : H + 8 ≤ 2 ^ (bitsOf big128 - 2))
+    (hacc : ∀ x ∈ a0 :: as, ∀ l ∈ cnvByConstCol N (sa + cst.length - (cnvOffsetSplit b off).1) (cnvOffsetSplit b off).1 x cst, ∀ v ∈ l, |v| ≤ H)
+    (s : List Poly) :
+    ∃ res, mulConst false big128 N rb rs off b (a0 :: as) cst = some res ∧ C02L.GWF N (Ks.mkCt rb N res) ∧
+      (∀ c ∈ res, ∀ l ∈ c, ∀ x ∈ l, |x| ≤ 2 ^ rb - 1) ∧
+      ∃ En Q : Poly, En.length = N ∧ Q.length = N ∧
+        normInf En ≤ (1 + C02L.snorm (min as.length s.length) s) *
+          normTolOff (rb * rs) (b * (sa + cst.length - (cnvOffsetSplit b off).1)) (cnvOffsetSplit b off).2 ∧
+        (2 : Ks.R N) ^ (b * (sa + cst.length - (cnvOffsetSplit b off).1) + (-(cnvOffsetSplit b off).2).toNat)
+            * Ks.ι N (C02L.valP rb N (Core.Ops.phase s (Ks.mkCt rb N res)))
+          + (2 : Ks.R N) ^ (rb * rs) * (2 : Ks.R N) ^ (cnvOffsetSplit b off).2.toNat *
+              (((2 : Ks.R N) ^ b) ^ (sa + cst.length - (cnvOffsetSplit b off).1) * (constTop N ((2 : Ks.R N) ^ b) a0 cst (cnvOffsetSplit b off).1
+                + ∑ i ∈ Finset.range (min s.length as.length), Ks.ι N (s.getD i []) * constTop N ((2 : Ks.R N) ^ b) (as.getD i []) cst (cnvOffsetSplit b off).1))
+          = (2 : Ks.R N) ^ (rb * rs) * (2 : Ks.R N) ^ (cnvOffsetSplit b off).2.toNat *
+              ((2 : Ks.R N) ^ b * (colVal N ((2 : Ks.R N) ^ b) a0
+                + ∑ i ∈ Finset.range (min s.length as.length), Ks.ι N (s.getD i []) * colVal N ((2 : Ks.R N) ^ b) (as.getD i [])) * constVal N ((2 : Ks.R N) ^ b) cst)
+            + Ks.ι N En
+            + (2 : Ks.R N) ^ (rb * rs + (b * (sa + cst.length - (cnvOffsetSplit b off).1) + (-(cnvOffsetSplit b off).2).toNat)) * Ks.ι N Q := by
+  subst h0
+  have hwf : ∀ c ∈ (a0 :: as).map (fun x => cnvByConstCol N (a0.length + cst.length - (cnvOffsetSplit b off).1) (cnvOffsetSplit b off).1 x cst),
+      C02L.ColWF N (a0.length + cst.length - (cnvOffsetSplit b off).1) c := by
+    intro c hc
+    obtain ⟨x, hx, rfl⟩ := List.mem_map.mp hc
+    apply cnvByConstCol_wf
+    rcases List.mem_cons.mp hx with e | e
+    · rw [e]; exact hx0
+    · exact hxs x e
+  have hne : (a0 :: as).map (fun x => cnvByConstCol N (a0.length + cst.length - (cnvOffsetSplit b off).1) (cnvOffsetSplit b off).1 x cst) ≠ [] := by simp
+  have hbd : ∀ c ∈ (a0 :: as).map (fun x => cnvByConstCol N (a0.length + cst.length - (cnvOffsetSplit b off).1) (cnvOffsetSplit b off).1 x cst),
+      ∀ l ∈ c, ∀ v ∈ l, |v| ≤ H := by
+    intro c hc
+    obtain ⟨x, hx, rfl⟩ := List.mem_map.mp hc
+    exact hacc x hx
+  obtain ⟨cs, h1, h2, h3, h4, h5⟩ := norm_total_rows big128 N rb rs b (a0.length + cst.length - (cnvOffsetSplit b off).1) (cnvOffsetSplit b off).2 H _
+    hN hrb1 hrb hb1 hb hH0 hH hne hwf hbd
+  have hcsne : cs ≠ [] := by intro h; rw [h] at h2; simp at h2
+  refine ⟨cs, ?_, (gwf_mk (N := N) rb rs cs hcsne h3).1, h4, ?_⟩
+  · have : mulConst false big128 N rb rs off b (a0 :: as) cst = (a0 :: as).mapM (fun x =>
+        bigNormalizeOff big128 N rb rs (cnvOffsetSplit b off).2 (cnvByConstCol N (a0.length + cst.length - (cnvOffsetSplit b off).1) (cnvOffsetSplit b off).1 x cst) b) := rfl
+    rw [this, mapM_comp (fun x => cnvByConstCol N (a0.length + cst.length - (cnvOffsetSplit b off).1) (cnvOffsetSplit b off).1 x cst)
+      (fun c => bigNormalizeOff big128 N rb rs (cnvOffsetSplit b off).2 c b)]
+    exact h1
+  · obtain ⟨En, Q, hE, hQ, hnm, he⟩ := h5 s
+    have e1 : ((a0 :: as).map (fun x => cnvByConstCol N (a0.length + cst.length - (cnvOffsetSplit b off).1) (cnvOffsetSplit b off).1 x cst)).length - 1 = as.length := by simp
+    rw [e1] at hnm
+    refine ⟨En, Q, hE, hQ, hnm, ?_⟩
+    have h3' := mul_const_phase_value N hN s a0 as cst (cnvOffsetSplit b off).1 a0.length ((2 : Ks.R N) ^ b) rfl hall hx0 hxs hsa hsb hhi
+    rw [he, ← h3']
+    ring
+
+example (s : List Poly) : ∃ res, mulConst false false 1 4 2 4 4 ((([[3], [0]] : Col)) :: [[[1], [0]]]) [2] = some res ∧ C02L.GWF 1 (Ks.mkCt 4 1 res) := by
+  obtain ⟨res, h1, h2, _⟩ := mul_const_decrypts (N := 1) (by decide) false 4 2 4 4 2 [[3], [0]] [[[1], [0]]] [2] (2 ^ 61)
+    rfl (by decide) (by decide) (by decide) (by decide) (by decide) (by decide) (by decide) (by decide) (by decide) (by decide) (by decide) (by decide)
+    (by decide) s
+  exact ⟨res, h1, h2⟩
+
+/-- **`mul_const_assign_decrypts`** — `glwe_mul_const_assign` (accumulator of `rs = res.size` limbs), END TO END, same generality: the result
+phase rescaled by `β^{F−rs}`, plus the explicit dropped limbs and the skipped top limbs, is the product plus the rescaled rounding `En`. -/
+theorem mul_const_assign_decrypts {N : Nat} (hN : 0 < N) (big128 : Bool) (rb rs off b sa : Nat) (a0 : Col) (as : List Col) (cst : List Int) (H : Int)
+    (h0 : a0.length = sa) (hall : ∀ x ∈ as, x.length = sa) (hx0 : ∀ l ∈ a0, l.length = N) (hxs : ∀ x ∈ as, ∀ l ∈ x, l.length = N)
+    (hsa : 1 ≤ sa) (hsb : 1 ≤ cst.length) (hhi : (cnvOffsetSplit b off).1 ≤ sa + cst.length - 1)
+    (hR : rs ≤ sa + cst.length - (cnvOffsetSplit b off).1)
+    (hrb1 : 1 ≤ rb) (hrb : rb ≤ 62) (hb1 : 1 ≤ b) (hb : b ≤ 62) (hH0 : 0 ≤ H) (hH : H + 8 ≤ 2 ^ (bitsOf big128 - 2))
+    (hacc : ∀ x ∈ a0 :: as, ∀ l ∈ cnvByConstCol N rs (cnvOffsetSplit b off).1 x cst, ∀ v ∈ l, |v| ≤ H)
+    (s : List Poly) :
+    ∃ res, mulConst true big128 N rb rs off b (a0 :: as) cst = some res ∧ C02L.GWF N (Ks.mkCt rb N res) ∧
+      (∀ c ∈ res, ∀ l ∈ c, ∀ x ∈ l, |x| ≤ 2 ^ rb - 1) ∧
+      ∃ En Q : Poly, En.length = N ∧ Q.length = N ∧
+        normInf En ≤ (1 + C02L.snorm (min as.length s.length) s) * normTolOff (rb * rs) (b * rs) (cnvOffsetSplit b off).2 ∧
+        ((2 : Ks.R N) ^ b) ^ (sa + cst.length - (cnvOffsetSplit b off).1 - rs) *
+            ((2 : Ks.R N) ^ (b * rs + (-(cnvOffsetSplit b off).2).toNat) * Ks.ι N (C02L.valP rb N (Core.Ops.phase s (Ks.mkCt rb N res))))
+          + (2 : Ks.R N) ^ (rb * rs) * (2 : Ks.R N) ^ (cnvOffsetSplit b off).2.toNat *
+              (∑ k ∈ Finset.Ico rs (sa + cst.length - (cnvOffsetSplit b off).1),
+                  Ks.ι N (Ks.phaseRow s (((a0 :: as).map (fun x => cnvByConstCol N (sa + cst.length - (cnvOffsetSplit b off).1) (cnvOffsetSplit b off).1 x cst)).map
+                    (fun col => limbOr0 N col k))) * ((2 : Ks.R N) ^ b) ^ (sa + cst.length - (cnvOffsetSplit b off).1 - 1 - k)
+                + ((2 : Ks.R N) ^ b) ^ (sa + cst.length - (cnvOffsetSplit b off).1) * (constTop N ((2 : Ks.R N) ^ b) a0 cst (cnvOffsetSplit b off).1
+                  + ∑ i ∈ Finset.range (min s.length as.length), Ks.ι N (s.getD i []) * constTop N ((2 : Ks.R N) ^ b) (as.getD i []) cst (cnvOffsetSplit b off).1))
+          = (2 : Ks.R N) ^ (rb * rs) * (2 : Ks.R N) ^ (cnvOffsetSplit b off).2.toNat *
+              ((2 : Ks.R N) ^ b * (colVal N ((2 : Ks.R N) ^ b) a0
+                + ∑ i ∈ Finset.range (min s.length as.length), Ks.ι N (s.getD i []) * colVal N ((2 : Ks.R N) ^ b) (as.getD i [])) * constVal N ((2 : Ks.R N) ^ b) cst)
+            + ((2 : Ks.R N) ^ b) ^ (sa + cst.length - (cnvOffsetSplit b off).1 - rs) *
+                (Ks.ι N En + (2 : Ks.R N) ^ (rb * rs + (b * rs + (-(cnvOffsetSplit b off).2).toNat)) * Ks.ι N Q) := by
+  have hwf : ∀ c ∈ (a0 :: as).map (fun x => cnvByConstCol N rs (cnvOffsetSplit b off).1 x cst), C02L.ColWF N rs c := by
+    intro c hc
+    obtain ⟨x, hx, rfl⟩ := List.mem_map.mp hc
+    apply cnvByConstCol_wf
+    rcases List.mem_cons.mp hx with e | e
+    · rw [e]; exact hx0
+    · exact hxs x e
+  have hne : (a0 :: as).map (fun x => cnvByConstCol N rs (cnvOffsetSplit b off).1 x cst) ≠ [] := by simp
+  have hbd : ∀ c ∈ (a0 :: as).map (fun x => cnvByConstCol N rs (cnvOffsetSplit b off).1 x cst), ∀ l ∈ c, ∀ v ∈ l, |v| ≤ H := by
+    intro c hc
+    obtain ⟨x, hx, rfl⟩ := List.mem_map.mp hc
+    exact hacc x hx
+  obtain ⟨cs, h1, h2, h3, h4, h5⟩ := norm_total_rows big128 N rb rs b rs (cnvOffsetSplit b off).2 H _
+    hN hrb1 hrb hb1 hb hH0 hH hne hwf hbd
+  have hcsne : cs ≠ [] := by intro h; rw [h] at h2; simp at h2
+  refine ⟨cs, ?_, (gwf_mk (N := N) rb rs cs hcsne h3).1, h4, ?_⟩
+  · have : mulConst true big128 N rb rs off b (a0 :: as) cst = (a0 :: as).mapM (fun x =>
+        bigNormalizeOff big128 N rb rs (cnvOffsetSplit b off).2 (cnvByConstCol N rs (cnvOffsetSplit b off).1 x cst) b) := rfl
+    rw [this, mapM_comp (fun x => cnvByConstCol N rs (cnvOffsetSplit b off).1 x cst)
+      (fun c => bigNormalizeOff big128 N rb rs (cnvOffsetSplit b off).2 c b)]
+    exact h1
+  · obtain ⟨En, Q, hE, hQ, hnm, he⟩ := h5 s
+    have e1 : ((a0 :: as).map (fun x => cnvByConstCol N rs (cnvOffsetSplit b off).1 x cst)).length - 1 = as.length := by simp
+    rw [e1] at hnm
+    refine ⟨En, Q, hE, hQ, hnm, ?_⟩
+    have h3' := mul_const_assign_phase_value N hN s a0 as cst (cnvOffsetSplit b off).1 sa rs ((2 : Ks.R N) ^ b) h0 hall hx0 hxs hsa hsb hhi hR
+    linear_combination (((2 : Ks.R N) ^ b) ^ (sa + cst.length - (cnvOffsetSplit b off).1 - rs)) * he
+      + ((2 : Ks.R N) ^ (rb * rs) * (2 : Ks.R N) ^ (cnvOffsetSplit b off).2.toNat) * h3'
+
+example (s : List Poly) : ∃ res, mulConst true true 1 4 2 4 4 ((([[3], [0]] : Col)) :: [[[1], [0]]]) [2] = some res ∧ C02L.GWF 1 (Ks.mkCt 4 1 res) := by
+  obtain ⟨res, h1, h2, _⟩ := mul_const_assign_decrypts (N := 1) (by decide) true 4 2 4 4 2 [[3], [0]] [[[1], [0]]] [2] (2 ^ 100)
+    rfl (by decide) (by decide) (by decide) (by decide) (by decide) (by decide) (by decide) (by decide) (by decide) (by decide) (by decide) (by decide)
+    (by decide) (by decide) s
+  exact ⟨res, h1, h2⟩
+
+/-- **`mul_plain_decrypts`** — `glwe_mul_plain`, END TO END, same generality; the operands entering the value are the masked ones
+(`cnv_prepare_left/right`). -/
+theorem mul_plain_decrypts {N : Nat} (hN : 0 < N) (big128 : Bool) (rb rs off b sa : Nat) (a0 : Col) (as : List Col) (aK : Nat) (pt : Col) (bK : Nat)
+    (H : Int)
+    (h0 : a0.length = sa) (hall : ∀ x ∈ as, x.length = sa) (hx0 : ∀ l ∈ a0, l.length = N) (hxs : ∀ x ∈ as, ∀ l ∈ x, l.length = N)
+    (hpt : ∀ l ∈ pt, l.length = N) (hsa : 1 ≤ sa) (hsb : 1 ≤ pt.length) (hhi : (cnvOffsetSplit b off).1 ≤ sa + pt.length - 1)
+    (hrb1 : 1 ≤ rb) (hrb : rb ≤ 62) (hb1 : 1 ≤ b) (hb : b ≤ 62) (hH0 : 0 ≤ H) (hH : H + 8 ≤ 2 ^ (bitsOf big128 - 2))
+    (hacc : ∀ x ∈ prepAll N (msbMaskBottomLimb b aK) (a0 :: as),
+      ∀ l ∈ Hal.cnvApplyCol N (sa + pt.length - (cnvOffsetSplit b off).1) (cnvOffsetSplit b off).1 x
+        (Hal.cnvPrepareCol N pt.length (msbMaskBottomLimb b bK) pt), ∀ v ∈ l, |v| ≤ H)
+    (s : List Poly) :
+    ∃ res, mulPlain big128 N rb rs off b (a0 :: as) aK pt bK = some res ∧ C02L.GWF N (Ks.mkCt rb N res) ∧
+      (∀ c ∈ res, ∀ l ∈ c, ∀ x ∈ l, |x| ≤ 2 ^ rb - 1) ∧
+      ∃ En Q : Poly, En.length = N ∧ Q.length = N ∧
+        normInf En ≤ (1 + C02L.snorm (min as.length s.length) s) *
+          normTolOff (rb * rs) (b * (sa + pt.length - (cnvOffsetSplit b off).1)) (cnvOffsetSplit b off).2 ∧
+        (2 : Ks.R N) ^ (b * (sa + pt.length - (cnvOffsetSplit b off).1) + (-(cnvOffsetSplit b off).2).toNat)
+            * Ks.ι N (C02L.valP rb N (Core.Ops.phase s (Ks.mkCt rb N res)))
+          + (2 : Ks.R N) ^ (rb * rs) * (2 : Ks.R N) ^ (cnvOffsetSplit b off).2.toNat *
+              (((2 : Ks.R N) ^ b) ^ (sa + pt.length - (cnvOffsetSplit b off).1) *
+                (plainTop N ((2 : Ks.R N) ^ b) (Hal.cnvPrepareCol N a0.length (msbMaskBottomLimb b aK) a0) (Hal.cnvPrepareCol N pt.length (msbMaskBottomLimb b bK) pt) (cnvOffsetSplit b off).1
+                + ∑ i ∈ Finset.range (min s.length as.length), Ks.ι N (s.getD i []) *
+                    plainTop N ((2 : Ks.R N) ^ b) ((prepAll N (msbMaskBottomLimb b aK) as).getD i []) (Hal.cnvPrepareCol N pt.length (msbMaskBottomLimb b bK) pt) (cnvOffsetSplit b off).1))
+          = (2 : Ks.R N) ^ (rb * rs) * (2 : Ks.R N) ^ (cnvOffsetSplit b off).2.toNat *
+              ((2 : Ks.R N) ^ b * (colVal N ((2 : Ks.R N) ^ b) (Hal.cnvPrepareCol N a0.length (msbMaskBottomLimb b aK) a0)
+                + ∑ i ∈ Finset.range (min s.length as.length), Ks.ι N (s.getD i []) * colVal N ((2 : Ks.R N) ^ b) ((prepAll N (msbMaskBottomLimb b aK) as).getD i []))
+                  * colVal N ((2 : Ks.R N) ^ b) (Hal.cnvPrepareCol N pt.length (msbMaskBottomLimb b bK) pt))
+            + Ks.ι N En
+            + (2 : Ks.R N) ^ (rb * rs + (b * (sa + pt.length - (cnvOffsetSplit b off).1) + (-(cnvOffsetSplit b off).2).toNat)) * Ks.ι N Q := by
+  subst h0
+  have hptP := cnvPrepareCol_limbs N pt.length (msbMaskBottomLimb b bK) pt hpt
+  have hwf : ∀ c ∈ (prepAll N (msbMaskBottomLimb b aK) (a0 :: as)).map (fun x => Hal.cnvApplyCol N (a0.length + pt.length - (cnvOffsetSplit b off).1) (cnvOffsetSplit b off).1 x
+      (Hal.cnvPrepareCol N pt.length (msbMaskBottomLimb b bK) pt)), C02L.ColWF N (a0.length + pt.length - (cnvOffsetSplit b off).1) c := by
+    intro c hc
+    obtain ⟨x, _, rfl⟩ := List.mem_map.mp hc
+    exact cnvApplyCol_wf N _ _ x _ hptP
+  have hne : (prepAll N (msbMaskBottomLimb b aK) (a0 :: as)).map (fun x => Hal.cnvApplyCol N (a0.length + pt.length - (cnvOffsetSplit b off).1) (cnvOffsetSplit b off).1 x
+      (Hal.cnvPrepareCol N pt.length (msbMaskBottomLimb b bK) pt)) ≠ [] := by simp [prepAll]
+  have hbd : ∀ c ∈ (prepAll N (msbMaskBottomLimb b aK) (a0 :: as)).map (fun x => Hal.cnvApplyCol N (a0.length + pt.length - (cnvOffsetSplit b off).1) (cnvOffsetSplit b off).1 x
+      (Hal.cnvPrepareCol N pt.length (msbMaskBottomLimb b bK) pt)), ∀ l ∈ c, ∀ v ∈ l, |v| ≤ H := by
+    intro c hc
+    obtain ⟨x, hx, rfl⟩ := List.mem_map.mp hc
+    exact hacc x hx
+  obtain ⟨cs, h1, h2, h3, h4, h5⟩ := norm_total_rows big128 N rb rs b (a0.length + pt.length - (cnvOffsetSplit b off).1) (cnvOffsetSplit b off).2 H _
+    hN hrb1 hrb hb1 hb hH0 hH hne hwf hbd
+  have hcsne : cs ≠ [] := by intro h; rw [h] at h2; simp [prepAll] at h2
+  refine ⟨cs, ?_, (gwf_mk (N := N) rb rs cs hcsne h3).1, h4, ?_⟩
+  · have : mulPlain big128 N rb rs off b (a0 :: as) aK pt bK = (prepAll N (msbMaskBottomLimb b aK) (a0 :: as)).mapM (fun x =>
+        bigNormalizeOff big128 N rb rs (cnvOffsetSplit b off).2 (Hal.cnvApplyCol N (a0.length + pt.length - (cnvOffsetSplit b off).1) (cnvOffsetSplit b off).1 x
+          (Hal.cnvPrepareCol N pt.length (msbMaskBottomLimb b bK) pt)) b) := rfl
+    rw [this, mapM_comp (fun x => Hal.cnvApplyCol N (a0.length + pt.length - (cnvOffsetSplit b off).1) (cnvOffsetSplit b off).1 x
+          (Hal.cnvPrepareCol N pt.length (msbMaskBottomLimb b bK) pt))
+      (fun c => bigNormalizeOff big128 N rb rs (cnvOffsetSplit b off).2 c b)]
+    exact h1
+  · obtain ⟨En, Q, hE, hQ, hnm, he⟩ := h5 s
+    have e1 : ((prepAll N (msbMaskBottomLimb b aK) (a0 :: as)).map (fun x => Hal.cnvApplyCol N (a0.length + pt.length - (cnvOffsetSplit b off).1) (cnvOffsetSplit b off).1 x
+        (Hal.cnvPrepareCol N pt.length (msbMaskBottomLimb b bK) pt))).length - 1 = as.length := by simp [prepAll]
+    rw [e1] at hnm
+    refine ⟨En, Q, hE, hQ, hnm, ?_⟩
+    have h3' := mul_plain_phase_value N hN s (Hal.cnvPrepareCol N a0.length (msbMaskBottomLimb b aK) a0) (prepAll N (msbMaskBottomLimb b aK) as)
+      (Hal.cnvPrepareCol N pt.length (msbMaskBottomLimb b bK) pt) (cnvOffsetSplit b off).1 a0.length ((2 : Ks.R N) ^ b)
+      (Hal.cnvPrepareCol_length _ _ _ _)
+      (by
+        intro x hx
+        obtain ⟨c, hc, rfl⟩ := List.mem_map.mp hx
+        rw [Hal.cnvPrepareCol_length]; exact hall c hc)
+      (cnvPrepareCol_limbs N _ _ a0 hx0)
+      (by
+        intro x hx
+        obtain ⟨c, hc, rfl⟩ := List.mem_map.mp hx
+        exact cnvPrepareCol_limbs N _ _ c (hxs c hc))
+      hptP hsa (by rw [Hal.cnvPrepareCol_length]; exact hsb) (by rw [Hal.cnvPrepareCol_length]; exact hhi)
+    rw [Hal.cnvPrepareCol_length] at h3'
+    have e2 : prepAll N (msbMaskBottomLimb b aK) (a0 :: as)
+        = Hal.cnvPrepareCol N a0.length (msbMaskBottomLimb b aK) a0 :: prepAll N (msbMaskBottomLimb b aK) as := rfl
+    rw [e2] at he
+    have e3 : (prepAll N (msbMaskBottomLimb b aK) as).length = as.length := by simp [prepAll]
+    rw [e3] at h3'
+    rw [he, ← h3']
+    ring
+
+example (s : List Poly) : ∃ res, mulPlain false 1 4 2 4 4 ((([[3], [0]] : Col)) :: [[[1], [0]]]) 8 [[2]] 4 = some res ∧ C02L.GWF 1 (Ks.mkCt 4 1 res) := by
+  obtain ⟨res, h1, h2, _⟩ := mul_plain_decrypts (N := 1) (by decide) false 4 2 4 4 2 [[3], [0]] [[[1], [0]]] 8 [[2]] 4 (2 ^ 61)
+    rfl (by decide) (by decide) (by decide) (by decide) (by decide) (by decide) (by decide) (by decide) (by decide) (by decide) (by decide) (by decide)
+    (by decide) (by decide) s
+  exact ⟨res, h1, h2⟩
+
+/-- **`relin_decrypts`** — `glwe_tensor_relinearize` with the tensor in the key radix, END TO END, result in ANY radix `1..62`, every key digit
+size, both accumulator widths: the call returns and
+`2^(bg·S)·phase(res) = 2^(rb·rs)·(Σ_p σ_p·usedVal(a_p) + Σ_p(Σ_r digit·E − dropped − β^S·head) + phase(tensor columns 0..rank)) + En + 2^(…)·Q`,
+`‖En‖_∞ ≤ (1 + Σ‖s_i‖₁)·normTol`.  Hypotheses: head-room `|product| ≤ X`, `|tensor| ≤ Y`, `X + Y + 8 ≤ 2^62 / 2^126`, key relation. -/
+theorem relin_decrypts {N : Nat} (big128 : Bool) (rb rs : Nat) (a : List Col) (g : GGLWE) (res0 : List Col) (sk : List Poly) (X Y : Int)
+    (hrb1 : 1 ≤ rb) (hrb : rb ≤ 62) (hgb1 : 1 ≤ g.base2k) (hgb : g.base2k ≤ 62)
+    (hX0 : 0 ≤ X) (hY0 : 0 ≤ Y) (hH : X + Y + 8 ≤ 2 ^ (bitsOf big128 - 2))
+    (hPb : ∀ c ∈ Core.gglweProductDft (relinInput N a g) g g.size res0, ∀ l ∈ c, ∀ x ∈ l, |x| ≤ X)
+    (hawf : ∀ j, j < g.colsOut → C02L.LimbsN N (a.getD j [])) (hab : ∀ c ∈ a, ∀ l ∈ c, ∀ x ∈ l, |x| ≤ Y)
+    (σ : ℕ → Ks.R N) (E : ℕ → ℕ → Ks.R N)
+    (hd : 1 ≤ g.dsize) (hN : 0 < N) (hn : g.n = N) (hc : 0 < g.colsOut)
+    (h0 : shapeOk g.n g.colsOut g.size res0 = true) (hM : ∀ j q, (g.toPMat.entry j q).length = N)
+    (hS : g.dnum * g.dsize ≤ g.size)
+    (hkey : ∀ i, i < g.colsIn → ∀ r, r < g.dnum →
+      Gadget.val ((2 : Ks.R N) ^ g.base2k) g.size (Ks.keyPhase N sk g.toPMat i r)
+        = 1 * σ i * ((2 : Ks.R N) ^ g.base2k) ^ (g.size - (r + 1) * g.dsize) + E i r) :
+    ∃ res, relinearize big128 N rb rs a g.base2k g g.size res0 = some res ∧ C02L.GWF N (Ks.mkCt rb N res) ∧
+      (∀ c ∈ res, ∀ l ∈ c, ∀ x ∈ l, |x| ≤ 2 ^ rb - 1) ∧
+      ∃ En Q : Poly, En.length = N ∧ Q.length = N ∧
+        normInf En ≤ (1 + C02L.snorm (min (g.colsOut - 1) sk.length) sk) * C02.normTol (rb * rs) (g.base2k * g.size) ∧
+        (2 : Ks.R N) ^ (g.base2k * g.size) * Ks.ι N (C02L.valP rb N (Core.Ops.phase sk (Ks.mkCt rb N res)))
+          = (2 : Ks.R N) ^ (rb * rs) * ((1 * ∑ i ∈ Finset.range g.colsIn,
+              σ i * Gadget.usedVal ((2 : Ks.R N) ^ g.base2k) g.size g.dsize g.dnum ((relinInput N a g).getD 0 []).length
+                (Ks.inLimb N (mkBuf g.n g.colsIn ((relinInput N a g).getD 0 []).length (relinInput N a g)) i)
+            + ∑ i ∈ Finset.range g.colsIn,
+              (∑ r ∈ Finset.range g.dnum,
+                  Gadget.digit ((2 : Ks.R N) ^ g.base2k) g.dsize g.dnum ((relinInput N a g).getD 0 []).length
+                    (Ks.inLimb N (mkBuf g.n g.colsIn ((relinInput N a g).getD 0 []).length (relinInput N a g)) i) r * E i r
+                - Gadget.dropped ((2 : Ks.R N) ^ g.base2k) g.size g.dsize g.dnum ((relinInput N a g).getD 0 []).length
+                    (Ks.inLimb N (mkBuf g.n g.colsIn ((relinInput N a g).getD 0 []).length (relinInput N a g)) i) (Ks.keyPhase N sk g.toPMat i)
+                - ((2 : Ks.R N) ^ g.base2k) ^ g.size * Gadget.head ((2 : Ks.R N) ^ g.base2k) g.dsize g.dnum ((relinInput N a g).getD 0 []).length
+                    (Ks.inLimb N (mkBuf g.n g.colsIn ((relinInput N a g).getD 0 []).length (relinInput N a g)) i) (Ks.keyPhase N sk g.toPMat i)))
+              + Ks.ι N (C02L.valP g.base2k N (Core.Ops.phase sk (Ks.mkCt g.base2k N
+                  ((List.range g.colsOut).map (fun j => C02L.fit N g.size (a.getD j [])))))))
+            + Ks.ι N En + (2 : Ks.R N) ^ (rb * rs + g.base2k * g.size) * Ks.ι N Q := by
+  obtain ⟨n, hn1⟩ : ∃ n, g.colsOut = n + 1 := ⟨g.colsOut - 1, by omega⟩
+  have hwf := gglweProductDft_wf N (relinInput N a g) g res0 hd hn h0 hM
+  have hPlen : (Core.gglweProductDft (relinInput N a g) g g.size res0).length = n + 1 := by simp [Core.gglweProductDft, hn1]
+  obtain ⟨cs, h1, h2, h3, h4, h5⟩ := acc_norm_total big128 N rb rs g.base2k g.size n 0 X Y _ (fun j => a.getD j []) hN
+    hrb1 hrb hgb1 hgb hX0 hY0 hH hPlen hwf hPb (fun j hj => hawf j (by omega)) (fun j _ => getD_bound a Y hab j)
+  have hcsne : cs ≠ [] := by intro h; rw [h] at h2; simp at h2
+  refine ⟨cs, ?_, (gwf_mk (N := N) rb rs cs hcsne h3).1, h4, ?_⟩
+  · have hrel : relinearize big128 N rb rs a g.base2k g g.size res0 = (List.range g.colsOut).mapM (fun j => bigNormalizeOff big128 N rb rs 0
+        (bigAddSmallAssign big128 ((Core.gglweProductDft (relinInput N a g) g g.size res0).getD j []) (a.getD j [])) g.base2k) := by
+      unfold relinearize relinInput
+      simp only [ne_eq, not_true_eq_false, if_false, if_true, mapM_some_map, Option.bind_some]
+      exact (mapM_comp _ _ _).symm
+    rw [hrel, hn1]
+    exact h1
+  · obtain ⟨En, Q, hE, hQ, hnm, he⟩ := h5 sk
+    rw [normTolOff_zero] at hnm
+    have e : g.colsOut - 1 = n := by omega
+    refine ⟨En, Q, hE, hQ, by rw [e]; exact hnm, ?_⟩
+    have h3' := relin_product_value N sk (relinInput N a g) g res0 ((2 : Ks.R N) ^ g.base2k) σ E hd hN hn hc h0 hM hS hkey
+    rw [h3'] at he
+    rw [hn1]
+    simpa using he
+
+example (σ : ℕ → Ks.R 1) : ∃ res, relinearize true 1 4 3 ([[[1], [0]], [[0], [1]], [[2], [1]]] : List Col) exTsk.base2k exTsk exTsk.size (zeroCols 1 2 3) = some res ∧
+    C02L.GWF 1 (Ks.mkCt 4 1 res) := by
+  obtain ⟨res, h1, h2, _⟩ := relin_decrypts (N := 1) true 4 3 ([[[1], [0]], [[0], [1]], [[2], [1]]] : List Col) exTsk (zeroCols 1 2 3) [[1]] (2 ^ 100) (2 ^ 100)
+    (by decide) (by decide) (by decide) (by decide) (by decide) (by decide) (by decide) (by decide +kernel) (by decide) (by decide)
+    σ (fun i r => Gadget.val ((2 : Ks.R 1) ^ exTsk.base2k) exTsk.size (Ks.keyPhase 1 [[1]] exTsk.toPMat i r)
+                    - 1 * σ i * ((2 : Ks.R 1) ^ exTsk.base2k) ^ (exTsk.size - (r + 1) * exTsk.dsize))
+    (by decide) (by decide) rfl (by decide) (by decide) (Ks.entry_length exTsk.toPMat 1 rfl (by decide +kernel)) (by decide)
+    (by intro i _ r _; exact (add_sub_cancel _ _).symm)
+  exact ⟨res, h1, h2⟩
 /-
 NOT PROVED (checked by correspondence on every generated case, see docs/C05.md):
 * `tensorSquare_eq_tensorApply` and `tensorApply_acc_eq_add` for ranks ≥ 3 (the property's quantifier is rank 1..2;
